@@ -9,7 +9,7 @@ CONSTANTS
   Amounts = {1, 3, 10, 25}
   Pairs = 1
   WdAmounts = {10}
-  CfgIds = {3, 8, 11, 12}
+  CfgIds = {3, 8, 11, 12, 13, 14}
   ScenIds = {1, 2}
   FixIds = {0}
   VaryPrices = FALSE
